@@ -238,6 +238,7 @@ func runScenario(sc scenario) func(t *testing.T, x *gate.Exec) {
 		cancelled := false
 		var cancelAt time.Duration
 		forcedCancel := false
+		idleStuck := false
 		for steps := 0; ; steps++ {
 			synctest.Wait()
 			if isFinished() {
@@ -277,6 +278,9 @@ func runScenario(sc scenario) func(t *testing.T, x *gate.Exec) {
 			} else {
 				add("tick", 0, func() {
 					if !env.WaitActivity(600*time.Second, 0) && !cancelled {
+						if len(pend) == 0 {
+							idleStuck = true // no submission is outstanding, none was started for 600 s, and the call has not returned
+						}
 						// nothing can happen any more (only hung submissions are outstanding):
 						// the caller gives up
 						forcedCancel = true
@@ -348,14 +352,23 @@ func runScenario(sc scenario) func(t *testing.T, x *gate.Exec) {
 			x.Violation("success-without-policy", "%v: reported success with SCTs from %v", sc, urls)
 		}
 		willing := map[string]bool{}
+		inSession := map[string]bool{}
+		for _, order := range sc.Sessions {
+			for _, u := range order {
+				inSession[u] = true
+			}
+		}
 		for u, o := range sc.Outcome {
-			if o == "sct" && !nilled[u] {
-				willing[u] = true
+			if o == "sct" && !nilled[u] && inSession[u] {
+				willing[u] = true // (a log weighted out of every group is never asked)
 			}
 		}
 		callerCancelled := cancelled && !forcedCancel
 		if !callerCancelled && sat(willing) && resErr != nil {
 			x.Violation("failure-despite-enough-logs", "%v: enough logs answer with an SCT and the caller did not cancel, yet: %v (returned SCTs from %v; submissions: %v)", sc, resErr, urls, sub.asked)
+		}
+		if idleStuck {
+			x.Violation("waits-although-no-submission-is-outstanding", "%v: every submission that was started has been answered, no further one was started for 600 s, and GetSCTs only returned when the caller gave up (submissions: %v)", sc, sub.asked)
 		}
 		if forcedCancel && sat(willing) {
 			x.Violation("stuck-despite-enough-logs", "%v: enough logs answer with an SCT, but the call only ended when the caller gave up after 600 s without activity (submissions: %v)", sc, sub.asked)
@@ -468,6 +481,61 @@ func scenarios(th bool) (out []scenario, ties int) {
 				_ = hangs
 				for _, ss := range sessSets {
 					out = append(out, scenario{Policy: f.policy, Logs: f.logs, BaseMin: min, Sessions: ss, Outcome: oc, Cancel: true, Bound: 1})
+				}
+				// one log weighted out of every group it belongs to (weight 0 through the public API): it is never asked,
+				// and the groups it leaves short-handed still come to an end
+				for wi, wo := range all {
+					if wi > 1 && !th {
+						break
+					}
+					drop := func(xs []string) []string {
+						var o []string
+						for _, u := range xs {
+							if u != wo {
+								o = append(o, u)
+							}
+						}
+						return o
+					}
+					kept := 0
+					for _, ss := range sessSets {
+						red := map[string][]string{}
+						empty := false
+						for name, order := range ss {
+							red[name] = drop(order)
+							if len(red[name]) == 0 {
+								empty = true
+							}
+						}
+						if empty || len(red[ctpolicy.BaseName]) < min {
+							break // (the weight API refuses to leave a group with fewer weighted logs than it must include)
+						}
+						// ties between group races are excluded for the full orders; re-check the reduced ones
+						tie := false
+						if f.policy == "chrome" {
+							pBase := min - 2
+							if pBase < 0 {
+								pBase = 0
+							}
+							ig, in, ib := instants(red["Google-operated"], 1), instants(red["Non-Google-operated"], 1), instants(red[ctpolicy.BaseName], pBase)
+							for _, u := range all {
+								if t, ok := ig[u]; ok && t == ib[u] {
+									tie = true
+								}
+								if t, ok := in[u]; ok && t == ib[u] {
+									tie = true
+								}
+							}
+						}
+						if tie {
+							continue
+						}
+						out = append(out, scenario{Policy: f.policy, Logs: f.logs, BaseMin: min, Sessions: red, Outcome: oc, Cancel: true, Bound: 1})
+						kept++
+						if kept >= 2 {
+							break
+						}
+					}
 				}
 			}
 		}
